@@ -7,6 +7,9 @@
     c03.resolve <n> {view name isJoin nAliases alias… number fromTable identifier}* (N view name | C view number | X identifier)
                  Header.SearchIndex / ContainsObject on a described header: I<index> | EAMB | ENOF | NONE
     c03.rec <w> <limit> <nv> v… <nt> {table}* <Plan anchor> <Plan step> [<Plan final>]
+    c03.recchain <w> <limit> <nv> v… <nt> {table}* <n> (A|U){n} <Plan anchor> <Plan member>{n}
+                 `anchor op1 member1 op2 member2 …` as the recursive table's own query (Model/RecChain.lean): every
+                 prefix a recursion whose result is the anchor of the next member, one shared --limit-recursion budget
   `w`      = number of worker chunks the model cuts every outer record range into (the answer must not depend on it)
   `v_i`    = profile tokens (Proto.parseProfile); cells and literals are indices into this dictionary
   Plan    := T k | G | D (no FROM: DUAL) | J kind Plan Plan JC | Q Plan Where Sel
@@ -39,10 +42,11 @@
              (out = AS name; v = literal, b = a condition as a value, k = CASE WHEN Cond THEN lit ELSE lit END)
   Cond    := cmp op E E | and C C | or C C | not C | isnull neg E | btw neg E E E | in neg E n v… | truth E
            | like neg E E                      (E [NOT] LIKE E: Model/Like.lean)
-  E       := c side idx | l v | n view|- name | s k   (n: reference by name, resolved by the model - own header, then
-             the records of the enclosing queries; s: scalar sub-query number k)
+  E       := c side idx | l v | n view|- name | s k | m view number
+             (n: reference by name, m: column number `view.number` - both resolved by the model: own header, then the
+             records of the enclosing queries, Model/RelNames.lean; s: scalar sub-query number k)
   Cond   += ex k | ins neg E k | anys op E k | alls op E k      (EXISTS / IN / ANY / ALL over sub-query k)
-  item   += s k out|- (scalar sub-query) | t view (view.*)
+  item   += s k out|- (scalar sub-query) | t view (view.*) | m view number out|- (column number)
   A last token `#<hex>` (the SQL text that was run) is ignored.
   answer: `<width> <row>|<row>|…` (cells `Proto.showVal` of the raw value, joined by `,`), `<width> -` when
   there is no row, `ERR` when the recursion limit is exceeded, `EAMB` / `ENOF` when an evaluated field
@@ -52,6 +56,8 @@ import Csvq.Model.Proto
 import Csvq.Model.Rel
 import Csvq.Model.Keys
 import Csvq.Model.Lateral
+import Csvq.Model.RelNames
+import Csvq.Model.RecChain
 import Csvq.Model.Aggregate
 namespace Csvq.Drive.C03
 open Csvq Csvq.Proto Csvq.Rel
@@ -72,6 +78,7 @@ inductive SelItem
   | comp (it : Item) (out : Option String)      -- a computed item (literal, condition as value, CASE)
   | scalar (s : Nat) (out : Option String)      -- a scalar sub-query
   | viewStar (view : String)                    -- view.*
+  | numref (view : String) (number : Int) (out : Option String)   -- view.number
 
 inductive Sel
   | star
@@ -134,6 +141,7 @@ def pExpr (vals : Array Profile) : P Expr
     pure (.lit p, ts)
   | "n" :: v :: name :: ts => some (.ref (if v = "-" then none else some v) name, ts)
   | "s" :: k :: ts => k.toNat?.map (fun k => (.scalar k, ts))
+  | "m" :: v :: k :: ts => k.toInt?.map (fun k => (.num v k, ts))
   | _ => none
 
 def pOptName : P (Option String)
@@ -271,6 +279,11 @@ def pSelItems (vals : Array Profile) (fuel : Nat) : Nat → P (List SelItem)
   | n + 1, "t" :: v :: ts => do
     let (r, ts) ← pSelItems vals fuel n ts
     pure (.viewStar v :: r, ts)
+  | n + 1, "m" :: v :: k :: ts => do
+    let k ← k.toInt?
+    let (o, ts) ← pOptName ts
+    let (r, ts) ← pSelItems vals fuel n ts
+    pure (.numref v k o :: r, ts)
   | _, _ => none
 
 def pairUp : List Nat → List (Nat × Nat)
@@ -506,7 +519,7 @@ structure Env where
   -- (`{ env with outer := … }`, `{ env with ctes := … }`) inherits both fields unchanged.
   recName : Option String := none
 
-def anonHdr (n : Nat) : Hdr := List.replicate n { view := "", name := "", isJoin := false }
+def anonHdr (n : Nat) : Hdr := numberHdr (List.replicate n { view := "", name := "", isJoin := false })
 
 /-- the ON condition of a USING / NATURAL join: `l.c1 = r.c1 AND l.c2 = r.c2 AND …` (left-nested) -/
 def usingCond : List (Nat × Nat) → Option CondE
@@ -590,7 +603,7 @@ def joinCore (env : Env) (kind : JKind) (lh : Hdr) (L : List Row) (rh : Hdr) (R 
     | x => pure x)
   let ce : Option CondE := match jc with
     | .none => none
-    | .on c => some (resolveCondEnv (lh ++ rh) env.outer c)
+    | .on c => some (resolveCondN (lh ++ rh) env.outer c)
     | .using pairs => usingCond pairs
     | _ => none
   -- references that fail to resolve raise their error where the nested loop evaluates them
@@ -658,7 +671,7 @@ def eval : Nat → Env → Plan → Except String (Hdr × List Row)
         joinCore env kind lh [lrow] rh R jc
       | _ =>
         let ce : Option CondE := (match jc with
-          | .on c => some (resolveCondEnv (lh ++ rh) env.outer c)
+          | .on c => some (resolveCondN (lh ++ rh) env.outer c)
           | _ => none)
         match ce with
         | some c =>
@@ -684,12 +697,12 @@ def eval : Nat → Env → Plan → Except String (Hdr × List Row)
         | .ok i => pure (fun (r : Row) => (r[i]?).getD nullP)
         | .error e => throw (errStr e))
     let res := aggQuery (aggOf fn) argFn rows
-    pure ([{ view := "", name := out, isJoin := false }], res.2)
+    pure (numberHdr [{ view := "", name := out, isJoin := false }], res.2)
   | .setop op all l r => do
     let (lh, A) ← eval fuel env l
     let (rh, B) ← eval fuel env r
     if lh.length ≠ rh.length then throw "ESETW" else
-    pure (fixHeader (lh.map (fun f => f.name)) lh, setOp (fun (r : Row) => r.map norm) op all A B)
+    pure (numberHdr (fixHeader (lh.map (fun f => f.name)) lh), setOp (fun (r : Row) => r.map norm) op all A B)
   | .query subs src wh sel => do
     let (h, rows) ← eval fuel env src
     let w := h.length
@@ -704,7 +717,7 @@ def eval : Nat → Env → Plan → Except String (Hdr × List Row)
     let rows ← (match wh with
       | none => pure rows
       | some ce =>
-        let ce := resolveCondEnv h env.outer ce
+        let ce := resolveCondN h env.outer ce
         if condPure ce then pure (filterImpl (chunkN env.w rows) (fun row => evalCond 0 row ce))
         else do
           -- a condition with open references / sub-queries: every record is evaluated once, the first error ends it
@@ -724,12 +737,12 @@ def eval : Nat → Env → Plan → Except String (Hdr × List Row)
           | x => [x]))
       | s => s
     match sel with
-    | .star => pure (fixHeader (h.map (fun f => f.name)) h, rows)
+    | .star => pure (numberHdr (fixHeader (h.map (fun f => f.name)) h), rows)
     | .idxs idxs =>
       if idxs.any (fun i => i ≥ w) then throw bad else do
       let out ← optE (projectImpl (chunkN env.w rows) idxs)
       let hs := idxs.filterMap (fun i => h[i]?)
-      pure (fixHeader (hs.map (fun f => f.name)) hs, out)
+      pure (numberHdr (fixHeader (hs.map (fun f => f.name)) hs), out)
     | .items items => do
       -- items are evaluated in order; the `AS` name of an item becomes a further name of its column for the
       -- items after it (`evalColumn` appends it to Header[idx].Aliases).  An item that does not resolve is
@@ -757,11 +770,18 @@ def eval : Nat → Env → Plan → Except String (Hdr × List Row)
             | .ok p => pure (h, acc ++ [{ fn := some (fun _ => .ok p), col := none, name := out.getD n, view := "" }])
             | .error e => if rows.isEmpty then pure (h, acc ++ [{ fn := none, col := none, name := out.getD n, view := "" }]) else throw (errStr e))
           | .error e => if rows.isEmpty then pure (h, acc ++ [{ fn := none, col := none, name := out.getD n, view := "" }]) else throw (errStr e))
+        | .numref v k out =>
+          (match fieldNumberIndex h v k with
+          | .ok i => pure (addAlias h i out, acc ++ [{ fn := some (colFn i), col := some i, name := out.getD "", view := ((h[i]?).map (fun f => f.view)).getD "" }])
+          | .error _ =>
+            (match resolveRef (.byNumber v k) env.outer with
+            | .ok p => pure (h, acc ++ [{ fn := some (fun _ => .ok p), col := none, name := out.getD "", view := "" }])
+            | .error e => if rows.isEmpty then pure (h, acc ++ [{ fn := none, col := none, name := out.getD "", view := "" }]) else throw (errStr e)))
         | .comp item out =>
           -- calculated for every record; only index references and literals inside (checked)
           let item := (match item with
-            | .cond c => Item.cond (resolveCondEnv h env.outer c)
-            | .case c a b => Item.case (resolveCondEnv h env.outer c) a b
+            | .cond c => Item.cond (resolveCondN h env.outer c)
+            | .case c a b => Item.case (resolveCondN h env.outer c) a b
             | x => x)
           let pure? := (match item with
             | .cond c => condPure c
@@ -778,7 +798,7 @@ def eval : Nat → Env → Plan → Except String (Hdr × List Row)
       let out ← (if fns.length ≠ resolved.length then pure []
         else if colIdx.length = resolved.length then optE (projectImpl (chunkN env.w rows) colIdx)
         else rows.mapM (fun r => fns.mapM (fun f => match f r with | .ok p => Except.ok p | .error e => Except.error (errStr e))))
-      pure (resolved.map (fun (x : RItem) => { view := x.view, name := x.name, isJoin := false }), out)
+      pure (numberHdr (resolved.map (fun (x : RItem) => { view := x.view, name := x.name, isJoin := false })), out)
   | .alias a names p => do
     let (h, rows) ← eval fuel env p
     let h ← renameHdr names h
@@ -899,6 +919,38 @@ def c03 (cmd : String) (args : List String) : String :=
       if !ts.isEmpty then none else
       let env : Env := { tables := tables.toArray, gen := ([], []), w := w }
       some (showE (eval evalFuel env plan))).getD bad
+  | "recchain" =>
+    (do
+      let (w, ts) ← pNat args
+      let (limit, ts) ← pNat ts
+      let (nv, ts) ← pNat ts
+      let (vals, ts) ← pVals nv ts
+      let vals := vals.toArray
+      let (nt, ts) ← pNat ts
+      let (tables, ts) ← pTables vals nt ts
+      let (n, ts) ← pNat ts
+      let (ops, ts) ← pNames n ts
+      let (anchor, ts) ← pPlan vals (ts.length + 1) ts
+      let rec plans (k : Nat) (ts : List String) : Option (List Plan × List String) :=
+        match k with
+        | 0 => some ([], ts)
+        | k + 1 => do
+          let (p, ts) ← pPlan vals (ts.length + 1) ts
+          let (r, ts) ← plans k ts
+          pure (p :: r, ts)
+      let (steps, ts) ← plans n ts
+      if !ts.isEmpty then none else
+      let env : Env := { tables := tables.toArray, gen := ([], []), w := w }
+      let (ah, a) ← (eval evalFuel env anchor).toOption
+      let aw := anonHdr ah.length
+      let members : List RecMember := (ops.zip steps).map (fun (os : String × Plan) =>
+        { merge := if os.1 == "U" then mergeDistinct (fun (r : Row) => r.map norm) else mergeAll,
+          step := fun g => match eval evalFuel { env with gen := (aw, g) } os.2 with
+            | .ok (_, rows) => rows
+            | .error _ => [] })
+      match recChainImpl members limit a with
+      | some (out, _) => some (showRes (aw, out))
+      | none => some "ERR").getD bad
   | "rec" | "recu" =>
     (do
       let (w, ts) ← pNat args
